@@ -16,7 +16,7 @@ PROP = "C34"
 RULE = ("scenario = 4-10 requests against 1-3 scripted nameservers under virtual time; non-trivial = at least one request was answered "
         "by something other than the first plain answer (timeout, retransmission, failover, error code, TC/TCP, cancel, base free, waiting "
         "queue); distinct = hash of the scenario script")
-SIZES = dict(quick=1600, thorough=100000)
+SIZES = dict(quick=1600, thorough=80000)
 EAI_CANCEL = -90001
 T_A, T_AAAA, T_PTR = 1, 28, 12
 
@@ -48,9 +48,11 @@ def owner_of(labels):
     return None
 
 
-def udp_rule(rng):
+def udp_rule(rng, allow_tc=True):
     r = rng.random()
     E = G.echo_reply
+    if not allow_tc and 0.85 <= r < 0.93:
+        r = rng.random() * 0.85
     if r < 0.30: return "1 0 0 " + E(rng=rng), "answer"
     if r < 0.50: return "0", "drop"
     if r < 0.62: return "1 %d 0 %s" % (rng.choice([100000, 400000, 900000, 1600000, 3000000]), E(rng=rng)), "delay"
@@ -66,9 +68,11 @@ def udp_rule(rng):
     return "2 0 0 %s 0 0 %s" % (E(rng=rng), E(rng=rng)), "duplicate"
 
 
-def tcp_rule(rng):
+def tcp_rule(rng, servfail=False):
     r = rng.random()
     E = G.echo_reply
+    if not servfail and 0.96 <= r < 0.98:
+        r = rng.random() * 0.96     # (a SERVFAIL read from the TCP connection is the known use-after-free of C33)
     ch = "-" if rng.random() < 0.5 else ",".join(str(rng.choice([1, 2, 5, 30, 200])) for _ in range(rng.randint(1, 5)))
     if r < 0.45: return "-1 %s %s" % (ch, E(tcp=True, rng=rng)), "tcp-answer"
     if r < 0.60: return "%d %s %s" % (rng.randrange(1, 40), ch, E(tcp=True, rng=rng)), "tcp-close-mid"
@@ -82,9 +86,9 @@ def tcp_rule(rng):
     return "-1 %s %s%s" % (ch, E(tcp=True, rng=rng), E(tcp=True, rng=rng)), "tcp-two-frames"
 
 
-def gen_request(rng, rid, ndomains):
+def gen_request(rng, rid, ndomains, allow_vc=True, allow_gai=True):
     r = rng.random()
-    if r < 0.3:
+    if r < 0.3 and allow_gai:
         kind = "G"
     else:
         kind = rng.choice(["A", "A", "AAAA", "P4", "P6"])
@@ -96,7 +100,7 @@ def gen_request(rng, rid, ndomains):
         return "G %d %d %d %s" % (rid, fam, aif, name.hex()), dict(kind="G", fam=fam)
     if rng.random() < 0.6 or not ndomains:
         flags |= G.F_NO_SEARCH
-    if rng.random() < 0.08: flags |= G.F_USEVC
+    if rng.random() < 0.08 and allow_vc: flags |= G.F_USEVC
     if rng.random() < 0.08: flags |= G.F_IGNTC
     if rng.random() < 0.15: flags |= G.F_CNAME_CB
     if kind == "P4":
@@ -109,6 +113,18 @@ def gen_request(rng, rid, ndomains):
 
 
 def gen_case(rng, idx):
+    """Scenario classes keep the known crashes of the unchanged tree (each one costs the rest of the process and a
+    restart) to a few per run while still reaching them:
+      plain     (88%) at most one request can end up on TCP (one TC rule or one DNS_QUERY_USEVC request), evdns_base_free only
+                      after everything reported or at an idle point without evdns_getaddrinfo pending
+      tcp       (5%)  use-vc / several TC rules / several USEVC requests, stalls and closes
+      free      (4%)  evdns_base_free(0|1) at arbitrary points, also with evdns_getaddrinfo pending
+      free-incb (3%)  evdns_base_free(0|1) inside a callback
+    """
+    r = rng.random()
+    klass = "plain" if r < 0.88 else "tcp" if r < 0.93 else "free" if r < 0.97 else "free-incb"
+    if rng.random() < 0.01:
+        return gen_tiny_table_case(rng, idx)
     nns = rng.choice([1, 1, 2, 2, 3])
     attempts = rng.choice([1, 2, 2, 3])
     timeout = rng.choice([0.5, 1, 1, 2])
@@ -120,29 +136,37 @@ def gen_case(rng, idx):
     L += ["O attempts %d" % attempts, "O timeout %s" % timeout, "O max-inflight %d" % inflight,
           "O max-timeouts %d" % rng.choice([1, 2, 3]), "O initial-probe-timeout %s" % rng.choice([0.5, 1, 3, 10]),
           "O randomize-case %d" % rng.choice([0, 1])]
-    if rng.random() < 0.1: L.append("O use-vc -")
+    if klass == "tcp" and rng.random() < 0.5: L.append("O use-vc -")
     if rng.random() < 0.1: L.append("O ignore-tc -")
     if rng.random() < 0.3: L.append("O getaddrinfo-allow-skew %s" % rng.choice([0.3, 1, 5]))
     if rng.random() < 0.2: L.append("O max-probe-timeout %d" % rng.choice([1, 5]))
     ndomains = rng.choice([0, 0, 0, 1, 2])
     for i in range(ndomains):
         L.append("SA " + (b"dom%d.example" % i).hex())
-    tags = set()
+    tags = {klass}
+    one_tcp = klass != "tcp" and rng.random() < 0.5        # how the single TCP request of a non-tcp scenario comes about
+    tc_left = 1 if (klass != "tcp" and not one_tcp) else 0
     for i in range(nns):
         for _ in range(rng.randint(2, 10)):
-            t, tg = udp_rule(rng); L.append("UR %d %s" % (i, t)); tags.add(tg)
-        if rng.random() < 0.5:      # the last rule repeats: let half of the servers end up answering
+            t, tg = udp_rule(rng, allow_tc=(klass == "tcp" or tc_left > 0))
+            if tg == "tc" and klass != "tcp":
+                tc_left -= 1
+            L.append("UR %d %s" % (i, t)); tags.add(tg)
+        if rng.random() < 0.5 or L[-1].startswith("UR") and "0200" in L[-1][:40]:
+            # the last rule repeats: let half of the servers end up answering (and never repeat a TC rule)
             L.append("UR %d 1 0 0 %s" % (i, G.echo_reply(rng=rng)))
         for _ in range(rng.randint(1, 5)):
-            t, tg = tcp_rule(rng); L.append("TR %d %s" % (i, t)); tags.add(tg)
+            t, tg = tcp_rule(rng, servfail=(klass == "tcp")); L.append("TR %d %s" % (i, t)); tags.add(tg)
     nreq = rng.randint(4, 10)
     reqs = {}
     next_rid = 0
-    ncb_guess = 0
-    free_done = False
     steps = []
+    vc_left = 1 if one_tcp else 0
+    allow_gai = klass != "free-incb" or rng.random() < 0.5
     for _ in range(nreq):
-        cmd, info = gen_request(rng, next_rid, ndomains)
+        cmd, info = gen_request(rng, next_rid, ndomains, allow_vc=(klass == "tcp" or vc_left > 0), allow_gai=allow_gai)
+        if klass != "tcp" and info.get("flags", 0) & G.F_USEVC:
+            vc_left -= 1
         reqs[next_rid] = info
         steps.append(cmd); next_rid += 1
         r = rng.random()
@@ -155,30 +179,62 @@ def gen_case(rng, idx):
         if rng.random() < 0.12:
             k = rng.randrange(0, nreq)
             c = rng.random()
-            if c < 0.45 and next_rid > 0:
+            if c < 0.55 and next_rid > 0:
                 steps.append("IC %d X %d" % (k, rng.randrange(max(1, nreq)))); tags.add("cancel-in-cb")
-            elif c < 0.75 and next_rid < 60:
-                cmd2, info2 = gen_request(rng, 40 + len([s for s in steps if s.startswith("IC")]), ndomains)
+            elif next_rid < 60:
+                cmd2, info2 = gen_request(rng, 40 + len([x for x in steps if x.startswith("IC")]), ndomains,
+                                          allow_vc=(klass == "tcp"), allow_gai=allow_gai)
                 rid2 = int(cmd2.split()[1]); reqs[rid2] = info2
                 steps.append("IC %d %s" % (k, cmd2)); tags.add("request-in-cb")
-            else:
-                steps.append("IC %d F %d" % (k, rng.choice([0, 1]))); tags.add("free-in-cb")
+    if klass == "free-incb":
+        steps.append("IC %d F %d" % (rng.randrange(0, nreq), rng.choice([0, 1]))); tags.add("free-in-cb")
     # ICs must be registered before they can fire: move them to the front
-    steps = [s for s in steps if s.startswith("IC")] + [s for s in steps if not s.startswith("IC")]
-    if rng.random() < 0.2:
+    steps = [x for x in steps if x.startswith("IC")] + [x for x in steps if not x.startswith("IC")]
+    has_gai = any(v["kind"] == "G" for v in reqs.values())
+    if klass == "free":
         pos = rng.randrange(len(steps) // 2, len(steps) + 1)
         steps.insert(pos, "F %d" % rng.choice([0, 1])); tags.add("free-midway")
         if rng.random() < 0.5:
             steps.insert(pos, "S")
+    elif klass == "plain" and not has_gai and rng.random() < 0.25:
+        pos = rng.randrange(len(steps) // 2, len(steps) + 1)
+        steps[pos:pos] = ["S", "F %d" % rng.choice([0, 1])]; tags.add("free-at-idle")
     L += steps
     stages = (ndomains + 1) * 4
     bound = (len(reqs) + nns + 2) * stages * attempts * timeout * 2 + 15
     L += ["W %d %d" % (int(bound * 1e6), 1000000)]
-    if rng.random() < 0.5 and "F " not in " ".join(steps):
+    if rng.random() < 0.5 and not any(x.startswith("F ") for x in steps):
         L.append("F %d" % rng.choice([0, 1]))
     L += ["E"]
     meta = dict(idx=idx, reqs=reqs, attempts=attempts, timeout=timeout, nns=nns, inflight=inflight, bound=bound, tags=sorted(tags),
-                ndomains=ndomains)
+                ndomains=ndomains, klass=klass)
+    return L, meta
+
+
+def gen_tiny_table_case(rng, idx):
+    """one or two searching requests against a full in-flight table (max-inflight 1 or 2) whose first answer is negative or TC:
+    the follow-up query must still be sent"""
+    inflight = rng.choice([1, 1, 2])
+    attempts, timeout = rng.choice([1, 2]), rng.choice([0.5, 1])
+    L = ["CASE %d" % idx, "B %d" % rng.choice([0, 0x8000]), "RNG %d 0" % rng.randrange(1 << 40), "NS 0",
+         "O attempts %d" % attempts, "O timeout %s" % timeout, "O max-inflight %d" % inflight, "O randomize-case %d" % rng.choice([0, 1]),
+         "SA " + b"dom0.example".hex()]
+    first = rng.choice(["nx", "nx", "nodata", "tc"])
+    E = G.echo_reply
+    L.append("UR 0 1 0 0 " + (E(rcode=3) if first == "nx" else E(addrs=0) if first == "nodata" else E(tc=1)))
+    L.append("UR 0 1 0 0 " + E(rng=rng))
+    L.append("TR 0 -1 - " + E(tcp=True, rng=rng))
+    reqs = {}
+    for rid in range(inflight):
+        kind = rng.choice(["A", "AAAA", "G"]) if inflight == 1 else rng.choice(["A", "AAAA"])
+        if kind == "G":
+            L.append("G %d %d 0 %s" % (rid, rng.choice([4, 6]), rid_name(rid, rng).hex())); reqs[rid] = dict(kind="G")
+        else:
+            L.append("R %d %s 0 %s" % (rid, kind, rid_name(rid, rng).hex())); reqs[rid] = dict(kind=kind, flags=0)
+    bound = 8 * attempts * timeout * 4 + 15
+    L += ["S", "W %d 1000000" % int(bound * 1e6), "E"]
+    meta = dict(idx=idx, reqs=reqs, attempts=attempts, timeout=timeout, nns=1, inflight=inflight, bound=bound,
+                tags=["tiny-table", "tiny-" + first], ndomains=1, klass="tiny-table")
     return L, meta
 
 
@@ -218,6 +274,9 @@ def judge_case(case, meta):
     qstream = {}
     txs = []           # wire transactions: dict(owner, qtype, id, start, end, name)
     open_tx = {}       # (owner, qtype) -> tx
+    ids_replied = set()
+    last_tx = {}
+    starved = set()
     wait_done = None
     nontrivial = False
     last_cb_seq = -10
@@ -271,7 +330,7 @@ def judge_case(case, meta):
             for m in msgs:
                 st("queries")
                 if free_t is not None:
-                    viol("C34:query-after-base-free", "query %s at t=%d after evdns_base_free" % (m.hex()[:60], t))
+                    st("queries_read_after_base_free")     # (sent before the free; the property does not speak about them)
                 d = W.decode_message(m)
                 if d.error or not d.questions:
                     st("undecodable_queries"); continue
@@ -292,8 +351,13 @@ def judge_case(case, meta):
                     cur["end"] = t; cur = None
                     st("new_transaction_stages")
                 if cur is None:
-                    cur = dict(owner=owner, qt=qt, id=d.id, start=t, end=None, name=nm, n=0, sight=[])
+                    # a reply carrying this id was sent earlier in the scenario: it may still sit unread in a socket and end
+                    # this transaction at any moment (evdns fails a request on a reply whose question does not match), so the
+                    # lifetime of this transaction cannot be inferred from the wire
+                    cur = dict(owner=owner, qt=qt, id=d.id, start=t, end=None, name=nm, n=0, sight=[], tainted=d.id in ids_replied,
+                               replied=False)
                     open_tx[key] = cur; txs.append(cur)
+                    last_tx[owner] = cur
                 cur["n"] += 1
                 cur["sight"].append(t)
                 if cur["n"] == 2:
@@ -307,13 +371,18 @@ def judge_case(case, meta):
             if len(data) >= 4:
                 rid_ = int(data[:4], 16)
                 t = int(ev[3])
+                ids_replied.add(rid_)
                 for o, tx in list(open_tx.items()):
                     if tx["id"] == rid_:
+                        tx["replied"] = True
                         open_tx.pop(o)["end"] = t
         elif k == "WAIT":
             wait_done = ev[3] == "1"
             if not wait_done and free_t is None:
                 st("wait_expired")
+                for r in reqs.values():
+                    if r.ret is True and not r.cbs:
+                        starved.add(r.rid)      # still silent after the whole virtual-time bound
         elif k == "STUCK":
             viol("C34:loop-never-idle", "the event loop did not reach an idle point within 5000 non-blocking passes at t=%s" % ev[1])
     # --- exactly once
@@ -336,7 +405,16 @@ def judge_case(case, meta):
         if n > 1:
             viol("C34:callback-twice:" + kind, "request %d reported %d times: %s" % (rid, n, r.cbs))
         if n == 0:
-            if r.pending_at_free and free_fail:
+            if rid in starved:
+                lt = last_tx.get(rid)
+                sub = ""
+                if lt is not None and lt["replied"] and meta["inflight"] <= 3:
+                    # the last thing seen for this request is a reply to its query (error -> next search name, TC -> TCP), the
+                    # follow-up query never appeared and the in-flight table is tiny: the follow-up sits in the waiting queue
+                    sub = ":continuation-stuck-in-waiting-queue"
+                viol("C34:no-callback:" + kind + sub, "request %d issued at t=%d had not reported when virtual time had been advanced by the bound of %.0f s" %
+                     (rid, r.t_issue, meta["bound"]))
+            elif r.pending_at_free and free_fail:
                 viol("C34:no-shutdown-callback:" + kind, "request %d pending at evdns_base_free(fail_requests=1) never reported" % rid)
             elif r.pending_at_free:
                 st("discarded_by_free")
@@ -344,7 +422,13 @@ def judge_case(case, meta):
             elif free_t is not None and r.t_issue is not None and r.seq_issue > free_seq:
                 pass
             else:
-                viol("C34:no-callback:" + kind, "request %d issued at t=%d never reported although virtual time was advanced by the bound of %.0f s" %
+                lt = last_tx.get(rid)
+                sub = ""
+                if lt is not None and lt["replied"] and meta["inflight"] <= 3:
+                    # the last thing seen for this request is a reply to its query (error -> next search name, TC -> TCP), the
+                    # follow-up query never appeared and the in-flight table is tiny: the follow-up sits in the waiting queue
+                    sub = ":continuation-stuck-in-waiting-queue"
+                viol("C34:no-callback:" + kind + sub, "request %d issued at t=%d never reported although virtual time was advanced by the bound of %.0f s" %
                      (rid, r.t_issue, meta["bound"]))
             continue
         t, code, seq, after_free = r.cbs[0]
@@ -358,6 +442,8 @@ def judge_case(case, meta):
                 # evdns_base_free(base, 1): every request that had not reported yet reports once, after the free (the reports are
                 # deferred).  Normally DNS_ERR_SHUTDOWN; a report that had already been decided keeps its own code.
                 st("shutdown_reports" if (code == 68 or kind == "gai") else "reports_decided_before_free")
+            elif r.t_cancel is not None and code == (69 if kind == "resolve" else EAI_CANCEL):
+                st("cancel_report_after_free")     # the request had been cancelled before the free: its one report is still owed
             elif free_incb and t == free_t and r.pending_at_free:
                 viol("C34:callback-after-base-free:%s:scheduled-before-free" % kind, "request %d: callback code %d ran after evdns_base_free(base,0) "
                      "was called inside another callback at the same instant t=%d (its report had already been scheduled)" % (rid, code, t))
@@ -401,7 +487,7 @@ def judge_case(case, meta):
     for idv, lst in byid.items():
         for i, a in enumerate(lst):
             for b in lst[i + 1:]:
-                if (a["owner"], a["qt"]) == (b["owner"], b["qt"]):
+                if (a["owner"], a["qt"]) == (b["owner"], b["qt"]) or a["tainted"] or b["tainted"]:
                     continue
                 hit = [(wa, wb) for wa in windows(a) for wb in windows(b) if max(wa[0], wb[0]) < min(wa[1], wb[1])]
                 if hit:
@@ -498,6 +584,12 @@ def meta_from_lines(lines):
             meta["bound"] = int(t[1]) / 1e6
         elif t[0] == "NS":
             meta["nns"] += 1
+        elif t[0] == "O" and t[1] == "max-inflight":
+            meta["inflight"] = int(t[2])
+        elif t[0] == "O" and t[1] == "timeout":
+            meta["timeout"] = float(t[2])
+        elif t[0] == "O" and t[1] == "attempts":
+            meta["attempts"] = int(t[2])
     return meta
 
 
@@ -521,7 +613,7 @@ def replay(info):
 
 
 REG = dict(category="exploration",
-           text="Runtime monitor of the evdns request lifecycle under a virtual clock: ~1.6e3 (quick) / 1e5 (thorough) scenarios of 4-10 "
+           text="Runtime monitor of the evdns request lifecycle under a virtual clock: ~1.6e3 (quick) / 8e4 (thorough) scenarios of 4-10 "
                 "evdns_base_resolve_*/evdns_getaddrinfo requests against 1-3 scripted nameservers (drop, delay, SERVFAIL/REFUSED/NOTIMP/NXDOMAIN/"
                 "NODATA, TC with TCP fallback answered in chunks / closed at byte i / stalled, malformed, wrong id, duplicates), small attempts/"
                 "timeout/max-inflight/probe settings, cancels and evdns_base_free(0|1) between steps and inside callbacks, transaction ids from "
